@@ -38,7 +38,7 @@ def run_one(m, thorough=False, keep=False, replay=False):
                 return res
             open(p, "w").write(s.replace(old, new))
         pkgs = sorted({"./" + os.path.dirname(f) + "/" for (f, _, _) in edits})
-        t = subprocess.run(["go", "test", "-vet=off", "-count=1"] + pkgs, cwd=repo, env=ENV, capture_output=True, text=True)
+        t = subprocess.run(["go", "test", "-vet=off", "-count=1"] + pkgs, cwd=repo, env=ENV, capture_output=True, text=True, errors="replace")
         res["suite"] = "pass" if t.returncode == 0 else "FAIL"
         if t.returncode != 0:
             res["suite_out"] = (t.stdout + t.stderr)[-600:]
@@ -46,14 +46,14 @@ def run_one(m, thorough=False, keep=False, replay=False):
         tiers = ["quick"] + (["thorough"] if thorough else [])
         for tier in tiers:
             t0 = time.time()
-            c = subprocess.run([os.path.join(VERIF, "check"), m["prop"], tier], cwd=VERIF, env=env, capture_output=True, text=True)
+            c = subprocess.run([os.path.join(VERIF, "check"), m["prop"], tier], cwd=VERIF, env=env, capture_output=True, text=True, errors="replace")
             res[tier] = {"exit": c.returncode, "s": round(time.time() - t0, 1),
                          "lines": [l for l in c.stdout.splitlines() if l.startswith(("VIOLATION", "  sig=", "INCONCLUSIVE", "KNOWN"))][:4]}
             if c.returncode == 1:
                 # the witness must replay: ./check <prop> --replay <file> has to report the violation again
                 rp = [l.split("replay=")[1].strip() for l in c.stdout.splitlines() if l.startswith("VIOLATION") and "replay=" in l]
                 if rp and replay:
-                    r2 = subprocess.run([os.path.join(VERIF, "check"), m["prop"], "--replay", rp[0]], cwd=VERIF, env=env, capture_output=True, text=True)
+                    r2 = subprocess.run([os.path.join(VERIF, "check"), m["prop"], "--replay", rp[0]], cwd=VERIF, env=env, capture_output=True, text=True, errors="replace")
                     res["replay_exit"] = r2.returncode
                 break
         caught = any(res.get(t, {}).get("exit") == 1 for t in tiers)
